@@ -16,6 +16,10 @@
 //   case <id>                               -> "case <id>"      (flushes a pending history first)
 //   cfg <shape> <ncons> <stage> [<selop>]   -> "ok" | "bad-op"
 //        shape: ts | tss | tsd   (TS<Int>, TSS<Int>, TSD<Int,TS<Int>>);  ncons 1..3
+//               tsb2 | tsb3 | tsl2 | tsbw2   STRUCTURED targets: every target is the whole output of ONE node
+//               (hgv_make_*: copies each field source that ticked into its field) of schema TSB{x,y} / TSB{x,y,z} /
+//               TSL<TS<Int>,2> (elements called x, y); tsbw2 = TSB{x,y} assembled at wiring time with to_tsb (a
+//               non-peered reference, one item per field).  One replay source per target field.
 //        stage: direct | pass | inner | innerref;   selop: ite (default) | cmp | tree:<T>
 //        tree:<T>  CHAINED references: a selection tree whose inner nodes publish references that are the
 //                  branches of the node above.   T ::= a|b|c|d          a target (replay source)
@@ -28,12 +32,16 @@
 //        sel=a: cond=true / cmp=LT,  sel=b: cond=false / cmp=EQ,  sel=c: cmp=GT (cmp only)   [ite / cmp cfg only]
 //        s<k>=<j>: selector of selection node k ticks and selects its branch j                [tree cfg only]
 //        d   ts: <int>     tss: +k,-k,...      tsd: k:v,-k,...
+//        structured shapes: the ticks address fields, `a.x=<int>` (several fields of one target per cycle allowed)
 //        "r=<0|1> ra=<d|-> rb=<d|-> [rc=<d|->] rs=<d|-> | <c0> | <c1> ..."
 //        r    the REF output of the (root) selection operator ticked in this cycle
+//        (tsbw2: "r=-" and no n - the graph has other REF nodes, the selection operators are not identified)
 //        tree cfg: " n=<count>" follows r: how many nodes of the tree (i, m, p) published a reference in this cycle
 //        ra   what the recorder on a (b, c) stored for this cycle;  rs the recorder through the reference
 //        <ci> "-" consumer i was not evaluated, else "v=<valid> m=<modified> x=<value|_> d=<delta_value()|_>"
 //             (+ " k=<+added,-removed[,~modified]>" from the key accessors for tss / tsd)
+//             structured shapes: "v=<valid> m=<modified> x=<x|_>,<y|_>[,<z|_>] fm=<one modified bit per field>";
+//             ra / rs are the fields that ticked / were recorded, "x:<v>,y:<v>" (ra from an observer node on the target)
 //   run                                     -> "end"
 // A history is run when `run`, the next `case`/`cfg` or EOF is read.  Errors -> "err:<class>".
 #include "hgv_common.h"
@@ -41,6 +49,7 @@
 #include <hgraph/lib/std/std_nodes.h>
 #include <hgraph/lib/std/std_operators.h>
 #include <hgraph/lib/std/operators/comparison.h>
+#include <hgraph/lib/std/operators/collection.h>
 #include <hgraph/lib/std/operators/control.h>
 #include <hgraph/lib/std/operators/impl/record_replay_memory_impl.h>
 #include <hgraph/lib/testing/record_replay.h>
@@ -64,6 +73,17 @@ namespace
     using STS  = TS<Int>;
     using STSS = TSS<Int>;
     using STSD = TSD<Int, TS<Int>>;
+    // structured targets
+    using SB2  = UnNamedTSB<Field<"x", TS<Int>>, Field<"y", TS<Int>>>;
+    using SB3  = UnNamedTSB<Field<"x", TS<Int>>, Field<"y", TS<Int>>, Field<"z", TS<Int>>>;
+    using SL2  = TSL<TS<Int>, 2>;
+
+    template <typename S> constexpr int NFIELDS = 0;
+    template <> constexpr int NFIELDS<SB2>  = 2;
+    template <> constexpr int NFIELDS<SB3>  = 3;
+    template <> constexpr int NFIELDS<SL2>  = 2;
+    template <typename S> constexpr bool IS_STRUCT = NFIELDS<S> > 0;
+    const char *const FIELD_NAMES[3]               = {"x", "y", "z"};
 
     // ---- per-run log: cycle -> consumer -> what it saw ---------------------------------------
     std::map<std::int64_t, std::map<int, std::string>> g_seen;
@@ -174,6 +194,128 @@ namespace
         s += " k={" + cat(cat(join_sorted(add), join_sorted(rem)), join_sorted(mod)) + "}";
         return s;
     }
+
+    // field I of a structured input / output (TSB by name, TSL by index)
+    template <int I, typename A>
+    decltype(auto) fld(A &ts)
+    {
+        using S = typename std::remove_cvref_t<A>::schema;
+        if constexpr (std::is_same_v<S, SL2>) { return ts[I]; }
+        else if constexpr (I == 0) { return ts.template field<"x">(); }
+        else if constexpr (I == 1) { return ts.template field<"y">(); }
+        else { return ts.template field<"z">(); }
+    }
+
+    template <typename A, typename F>
+    void for_fields(A &ts, F &&f)
+    {
+        using S = typename std::remove_cvref_t<A>::schema;
+        [&]<int... I>(std::integer_sequence<int, I...>) { (f(I, fld<I>(ts)), ...); }(std::make_integer_sequence<int, NFIELDS<S>>{});
+    }
+
+    template <typename A>
+        requires IS_STRUCT<typename A::schema>
+    std::string seen_text(const A &ts)
+    {
+        std::string s = std::string{"v="} + (ts.valid() ? "1" : "0") + " m=" + (ts.modified() ? "1" : "0");
+        std::string x, fm;
+        for_fields(ts, [&](int i, auto &&f) {
+            x += (i ? "," : "") + (f.valid() ? std::to_string(f.value()) : std::string{"_"});
+            fm += f.modified() ? "1" : "0";
+        });
+        return s + " x=" + x + " fm=" + fm;
+    }
+
+    // the fields that ticked, "x:<v>,y:<v>"
+    template <typename A>
+    std::string ticked_text(const A &ts)
+    {
+        std::string out;
+        for_fields(ts, [&](int i, auto &&f) {
+            if (f.modified() && f.valid()) { out += (out.empty() ? "" : ",") + std::string{FIELD_NAMES[i]} + ":" + std::to_string(f.value()); }
+        });
+        return out;
+    }
+
+    template <> std::string delta_text<SB2>(const ValueView &v)
+    {
+        if (!v.has_value()) { return "_"; }
+        const auto  b = v.as_bundle();
+        std::string out;
+        for (std::size_t i = 0; i < 2; ++i)
+        {
+            if (!b.element_valid(i) || !b.at(i).has_value()) { continue; }
+            out += (out.empty() ? "" : ",") + std::string{FIELD_NAMES[i]} + ":" + std::to_string(b.at(i).checked_as<Int>());
+        }
+        return out;
+    }
+    template <> std::string delta_text<SB3>(const ValueView &v)
+    {
+        if (!v.has_value()) { return "_"; }
+        const auto  b = v.as_bundle();
+        std::string out;
+        for (std::size_t i = 0; i < 3; ++i)
+        {
+            if (!b.element_valid(i) || !b.at(i).has_value()) { continue; }
+            out += (out.empty() ? "" : ",") + std::string{FIELD_NAMES[i]} + ":" + std::to_string(b.at(i).checked_as<Int>());
+        }
+        return out;
+    }
+    template <> std::string delta_text<SL2>(const ValueView &v)
+    {
+        if (!v.has_value()) { return "_"; }
+        std::vector<std::pair<Int, std::string>> items;
+        for (const auto &[kv, dv] : v.as_map())
+        {
+            const Int k = kv.checked_as<Int>();
+            items.emplace_back(k, std::string{FIELD_NAMES[k]} + ":" + (dv.has_value() ? std::to_string(dv.checked_as<Int>()) : "_"));
+        }
+        return join_sorted(std::move(items));
+    }
+
+    // ---- structured targets: one node whose whole output is the target -------------------------
+    template <typename S> struct HgvMake;
+    template <> struct HgvMake<SB2>
+    {
+        static constexpr auto name = "hgv_make_b2";
+        static void eval(In<"x", TS<Int>, InputValidity::Unchecked> x, In<"y", TS<Int>, InputValidity::Unchecked> y, Out<SB2> out)
+        {
+            if (x.modified()) { out.field<"x">().set(x.value()); }
+            if (y.modified()) { out.field<"y">().set(y.value()); }
+        }
+    };
+    template <> struct HgvMake<SB3>
+    {
+        static constexpr auto name = "hgv_make_b3";
+        static void eval(In<"x", TS<Int>, InputValidity::Unchecked> x, In<"y", TS<Int>, InputValidity::Unchecked> y,
+                         In<"z", TS<Int>, InputValidity::Unchecked> z, Out<SB3> out)
+        {
+            if (x.modified()) { out.field<"x">().set(x.value()); }
+            if (y.modified()) { out.field<"y">().set(y.value()); }
+            if (z.modified()) { out.field<"z">().set(z.value()); }
+        }
+    };
+    template <> struct HgvMake<SL2>
+    {
+        static constexpr auto name = "hgv_make_l2";
+        static void eval(In<"x", TS<Int>, InputValidity::Unchecked> x, In<"y", TS<Int>, InputValidity::Unchecked> y, Out<SL2> out)
+        {
+            if (x.modified()) { out.set(0, x.value()); }
+            if (y.modified()) { out.set(1, y.value()); }
+        }
+    };
+
+    // what ticked on a target itself (the structured counterpart of record(a))
+    std::map<std::int64_t, std::map<int, std::string>> g_target;
+    template <typename S>
+    struct HgvTargetObs
+    {
+        static constexpr auto name = "hgv_target_obs";
+        static void eval(DateTime now, Scalar<"idx", Int> idx, In<"ts", S, InputValidity::Unchecked> ts)
+        {
+            g_target[us(now) - us(MIN_ST)][static_cast<int>(idx.value())] = ticked_text(ts);
+        }
+    };
 
     // ---- the counting consumers ---------------------------------------------------------------
     template <typename S, bool Checked>
@@ -304,9 +446,11 @@ namespace
         int         ncons{1};
         std::string stage{"direct"};
         bool        cmp{false};
+        bool        wired{false};     // tsbw2: targets assembled at wiring time (to_tsb)
         bool        chained{false};   // cfg ... tree:<T>
         Tree        tree;             // always set: ite = i(a,b), cmp = m(a,b,c)
         int         targets() const { return tree.ntargets; }
+        int         nfields() const { return shape == "tsb3" ? 3 : (shape == "tsb2" || shape == "tsl2" || shape == "tsbw2") ? 2 : 0; }
     };
 
     struct DeltaSpec
@@ -464,11 +608,28 @@ namespace
     std::vector<std::string> run_history(const Cfg &cfg, const std::vector<Cycle> &cycles)
     {
         g_seen.clear();
+        g_target.clear();
         Wiring w;
         record_replay::set_config(w.global_state(),
                                   record_replay::RecordReplayConfig{.backend = std::string{record_replay::TESTING}});
         std::vector<Port<S>> tg;
-        for (int t = 0; t < cfg.targets(); ++t) { tg.push_back(wire<stdlib::replay_impl, S>(w, Str{TARGET_KEYS[t]})); }
+        auto field_key = [](int t, int f) { return std::string{TARGET_KEYS[t]} + "." + FIELD_NAMES[f]; };
+        for (int t = 0; t < cfg.targets(); ++t)
+        {
+            if constexpr (IS_STRUCT<S>)
+            {
+                std::vector<Port<TS<Int>>> src;
+                for (int f = 0; f < NFIELDS<S>; ++f) { src.push_back(wire<stdlib::replay_impl, TS<Int>>(w, Str{field_key(t, f)})); }
+                if constexpr (std::is_same_v<S, SB3>) { tg.push_back(wire<HgvMake<S>>(w, src[0], src[1], src[2])); }
+                else if constexpr (std::is_same_v<S, SB2>)
+                {
+                    if (cfg.wired) { tg.push_back(stdlib::to_tsb<SB2>(w, src[0], src[1])); }
+                    else { tg.push_back(wire<HgvMake<S>>(w, src[0], src[1])); }
+                }
+                else { tg.push_back(wire<HgvMake<S>>(w, src[0], src[1])); }
+            }
+            else { tg.push_back(wire<stdlib::replay_impl, S>(w, Str{TARGET_KEYS[t]})); }
+        }
         auto wire_rest = [&](auto sel) {
             if (cfg.stage == "direct") { wire_consumers<S>(w, sel.template as<S>(), cfg.ncons); }
             else if (cfg.stage == "pass")
@@ -503,7 +664,11 @@ namespace
             auto selector = wire<stdlib::replay_impl, TS<Bool>>(w, Str{"hgv::sel"});
             wire_rest(wire<stdlib::if_then_else>(w, selector, tg[0], tg[1]));
         }
-        for (int t = 0; t < cfg.targets(); ++t) { wire<stdlib::dense_record_impl>(w, tg[t], Str{RECORD_KEYS[t]}); }
+        for (int t = 0; t < cfg.targets(); ++t)
+        {
+            if constexpr (IS_STRUCT<S>) { wire<HgvTargetObs<S>>(w, Int{t}, tg[t]); }
+            else { wire<stdlib::dense_record_impl>(w, tg[t], Str{RECORD_KEYS[t]}); }
+        }
         GraphBuilder gb = std::move(w).finish();
 
         std::array<std::vector<std::optional<Value>>, MAX_SEL>     ds;
@@ -521,13 +686,42 @@ namespace
                 }
                 else { ds[k].emplace_back(Value{Bool{*sel == 0}}); }
             }
-            for (int t = 0; t < cfg.targets(); ++t)
+            if constexpr (!IS_STRUCT<S>)
             {
-                dt[t].push_back(c.d[t].has_value() ? std::optional<Value>{make_delta<S>(*c.d[t])} : std::nullopt);
+                for (int t = 0; t < cfg.targets(); ++t)
+                {
+                    dt[t].push_back(c.d[t].has_value() ? std::optional<Value>{make_delta<S>(*c.d[t])} : std::nullopt);
+                }
             }
         }
         for (int k = 0; k < cfg.tree.nsel; ++k) { testing::set_replay_deltas(gb.global_state(), SEL_KEYS[k], ds[k]); }
-        for (int t = 0; t < cfg.targets(); ++t) { testing::set_replay_deltas(gb.global_state(), TARGET_KEYS[t], dt[t]); }
+        if constexpr (IS_STRUCT<S>)
+        {
+            for (int t = 0; t < cfg.targets(); ++t)
+            {
+                for (int f = 0; f < NFIELDS<S>; ++f)
+                {
+                    std::vector<std::optional<Value>> df;
+                    for (const auto &c : cycles)
+                    {
+                        std::optional<Value> v;
+                        if (c.d[t].has_value())
+                        {
+                            for (const auto &[k, val] : c.d[t]->sets)
+                            {
+                                if (k == Int{f}) { v = Value{Int{val}}; }
+                            }
+                        }
+                        df.push_back(std::move(v));
+                    }
+                    testing::set_replay_deltas(gb.global_state(), field_key(t, f), df);
+                }
+            }
+        }
+        if constexpr (!IS_STRUCT<S>)
+        {
+            for (int t = 0; t < cfg.targets(); ++t) { testing::set_replay_deltas(gb.global_state(), TARGET_KEYS[t], dt[t]); }
+        }
 
         Obs obs;
         obs.nsel = 0;
@@ -542,20 +736,30 @@ namespace
         view.run();
 
         std::array<std::vector<std::optional<Value>>, MAX_TARGETS> rec;
-        for (int t = 0; t < cfg.targets(); ++t) { rec[t] = testing::get_recorded_deltas(view.graph().global_state(), RECORD_KEYS[t]); }
+        if constexpr (!IS_STRUCT<S>)
+        {
+            for (int t = 0; t < cfg.targets(); ++t) { rec[t] = testing::get_recorded_deltas(view.graph().global_state(), RECORD_KEYS[t]); }
+        }
         auto rs = testing::get_recorded_deltas(view.graph().global_state(), "hgv::rs");
         std::vector<std::string> lines;
         const char *const        names[MAX_TARGETS] = {" ra=", " rb=", " rc=", " rd="};
         for (std::size_t i = 0; i < cycles.size(); ++i)
         {
             const auto  ci = static_cast<std::int64_t>(i);
-            std::string s  = std::string{"r="} + (obs.ref_ticked.count(ci) && obs.ref_ticked[ci] ? "1" : "0");
-            if (cfg.chained) { s += " n=" + std::to_string(obs.published.count(ci) ? obs.published[ci] : 0); }
+            // tsbw2: the REF nodes of the graph are not only the selection operators - r / n are not observed
+            std::string s  = std::string{"r="} + (cfg.wired ? "-" : obs.ref_ticked.count(ci) && obs.ref_ticked[ci] ? "1" : "0");
+            if (cfg.chained && !cfg.wired) { s += " n=" + std::to_string(obs.published.count(ci) ? obs.published[ci] : 0); }
             for (int t = 0; t < cfg.targets(); ++t)
             {
-                s += names[t] + (i < rec[t].size() && rec[t][i].has_value() ? delta_text<S>(rec[t][i]->view()) : std::string{"-"});
+                if constexpr (IS_STRUCT<S>)
+                {
+                    auto it = g_target.find(ci);
+                    s += names[t] + (it != g_target.end() && it->second.count(t) && !it->second[t].empty() ? it->second[t] : std::string{"-"});
+                }
+                else { s += names[t] + (i < rec[t].size() && rec[t][i].has_value() ? delta_text<S>(rec[t][i]->view()) : std::string{"-"}); }
             }
-            s += " rs=" + (i < rs.size() && rs[i].has_value() ? delta_text<S>(rs[i]->view()) : std::string{"-"});
+            std::string rst = i < rs.size() && rs[i].has_value() ? delta_text<S>(rs[i]->view()) : std::string{"-"};
+            s += " rs=" + (rst.empty() ? std::string{"-"} : rst);
             for (int k = 0; k < cfg.ncons; ++k)
             {
                 auto it = g_seen.find(ci);
@@ -592,7 +796,10 @@ int main()
         {
             if (cfg.shape == "ts") { lines = run_history<STS>(cfg, cycles); }
             else if (cfg.shape == "tss") { lines = run_history<STSS>(cfg, cycles); }
-            else { lines = run_history<STSD>(cfg, cycles); }
+            else if (cfg.shape == "tsd") { lines = run_history<STSD>(cfg, cycles); }
+            else if (cfg.shape == "tsb3") { lines = run_history<SB3>(cfg, cycles); }
+            else if (cfg.shape == "tsl2") { lines = run_history<SL2>(cfg, cycles); }
+            else { lines = run_history<SB2>(cfg, cycles); }
         }
         catch (const std::invalid_argument &e)
         {
@@ -631,7 +838,8 @@ int main()
                 flush(false);
                 Cfg  c;
                 const bool chained = w.size() == 5 && w[4].rfind("tree:", 0) == 0;
-                bool ok = (w.size() == 4 || w.size() == 5) && (w[1] == "ts" || w[1] == "tss" || w[1] == "tsd") &&
+                bool ok = (w.size() == 4 || w.size() == 5) && (w[1] == "ts" || w[1] == "tss" || w[1] == "tsd" || w[1] == "tsb2" || w[1] == "tsb3" || w[1] == "tsl2" ||
+                           w[1] == "tsbw2") &&
                           (w[2] == "1" || w[2] == "2" || w[2] == "3") &&
                           (w[3] == "direct" || w[3] == "pass" || w[3] == "inner" || w[3] == "innerref") &&
                           (w.size() == 4 || w[4] == "ite" || w[4] == "cmp" || chained);
@@ -644,6 +852,7 @@ int main()
                 if (ok)
                 {
                     c.shape = w[1];
+                    c.wired = w[1] == "tsbw2";
                     c.ncons = static_cast<int>(to_i(w[2]));
                     c.stage = w[3];
                     cfg     = c;
@@ -670,6 +879,20 @@ int main()
                              !cy.sel[k[1] - '0'].has_value())
                     {
                         cy.sel[k[1] - '0'] = v[0] - '0';
+                    }
+                    else if (cfg.nfields() > 0)
+                    {
+                        // structured: <target>.<field>=<int>, each field of a target at most once per cycle
+                        Int val{};
+                        ok = k.size() == 3 && k[1] == '.' && k[0] >= 'a' && k[0] < 'a' + cfg.targets() && k[2] >= 'x' &&
+                             k[2] < 'x' + cfg.nfields() && parse_int(v, val);
+                        if (ok)
+                        {
+                            auto &d = cy.d[k[0] - 'a'];
+                            if (!d.has_value()) { d = DeltaSpec{}; }
+                            for (const auto &[f, old] : d->sets) { ok = ok && f != Int{k[2] - 'x'}; }
+                            if (ok) { d->sets.emplace_back(Int{k[2] - 'x'}, val); }
+                        }
                     }
                     else if (k.size() == 1 && k[0] >= 'a' && k[0] < 'a' + cfg.targets() && !cy.d[k[0] - 'a'].has_value())
                     {
